@@ -27,6 +27,10 @@ class ToolError(Exception):
     pass
 
 
+class HarnessCrash(ToolError):
+    """the harness process died (abort / signal): the code under test brought the process down"""
+
+
 def log(*a):
     print(*a, file=sys.stderr, flush=True)
 
@@ -73,6 +77,8 @@ def jsv(args, timeout=3600, stdin=None, seed_offset=0):
     for line in p.stdout.split('\n'):
         if line.startswith('SUMMARY '):
             summary = json.loads(line[8:])
+    if p.returncode < 0 or p.returncode in (101, 134, 139):
+        raise HarnessCrash(f'harness crashed (exit {p.returncode}): jsv {" ".join(map(str, args))}\n' + p.stderr[-600:])
     if p.returncode != 0 or summary is None:
         raise ToolError(f'harness failed (exit {p.returncode}): jsv {" ".join(map(str, args))}\n'
                         + p.stderr[-3000:] + p.stdout[-1000:])
